@@ -142,6 +142,15 @@ fn check_geometry(req: &FmtReq, raw: &RawBpb) -> Result<Geom, String> {
     if g.width != 32 && raw.root_ent_cnt == 0 {
         return Err("FAT12/16 volume without root entries".into());
     }
+    // the informational type string must name the width the cluster count implies
+    let want_label: &[u8; 8] = match g.width {
+        12 => b"FAT12   ",
+        16 => b"FAT16   ",
+        _ => b"FAT32   ",
+    };
+    if &raw.fil_sys_type != want_label {
+        return Err(format!("file-system type label {:?} on a volume whose {} clusters make it FAT{}", String::from_utf8_lossy(&raw.fil_sys_type), g.clusters, g.width));
+    }
     Ok(g)
 }
 
@@ -363,9 +372,17 @@ pub fn hook_eval(req: &FmtReq) -> Result<Option<(u8, u64)>, String> {
         Caught::Panic(p) => Err(format!("panicked: {}", p)),
         Caught::Ok(Err(fatfs::Error::InvalidInput)) => Ok(None),
         Caught::Ok(Err(e)) => Err(format!("rejected with {:?}, not InvalidInput", e)),
-        Caught::Ok(Ok((bytes, _ft))) => {
+        Caught::Ok(Ok((bytes, ft))) => {
             let raw = RawBpb::from_sector(&bytes);
             let g = check_geometry(req, &raw)?;
+            let w = match ft {
+                fatfs::FatType::Fat12 => 12,
+                fatfs::FatType::Fat16 => 16,
+                fatfs::FatType::Fat32 => 32,
+            };
+            if w != g.width {
+                return Err(format!("the formatter lays the table out as FAT{} but {} clusters make the volume FAT{}", w, g.clusters, g.width));
+            }
             Ok(Some((g.width, g.spc)))
         }
     }
@@ -478,6 +495,85 @@ fn sweep(name: &str, template: &FmtReq, lo: u64, hi: u64, stride: u64, must_acce
     b
 }
 
+/// class of a size under a template: rejected, or (width, sectors per cluster); Err = violation
+fn size_class(template: &FmtReq, t: u64) -> Result<Option<(u8, u64)>, (FmtReq, String)> {
+    let mut req = template.clone();
+    req.total_sectors = Some(t as u32);
+    hook_eval(&req).map_err(|m| (req, m))
+}
+
+/// Locate every size at which the outcome class of `template` changes (coarse geometric grid + bisection) and sweep
+/// a window of +-`half` sizes around each boundary: the integer-arithmetic cliffs of the sizing heuristics and of
+/// the FAT-width limits are where off-by-one mistakes live.
+fn boundary_windows(name: &str, template: &FmtReq, half: u64) -> Block {
+    let mut b = Block::new(name);
+    let mut grid: Vec<u64> = Vec::new();
+    let mut x = 24.0f64;
+    while x < u32::MAX as f64 {
+        grid.push(x as u64);
+        x *= 1.015;
+    }
+    grid.push(u32::MAX as u64);
+    grid.dedup();
+    let mut boundaries: Vec<u64> = Vec::new();
+    let mut prev: Option<(u64, Option<(u8, u64)>)> = None;
+    for t in grid {
+        let c = match size_class(template, t) {
+            Ok(c) => c,
+            Err((req, m)) => {
+                b.failure = Some(Failure { message: format!("format (hook) {:?}: {}", req, m), case: serde_json::to_value(&req).unwrap(), kind: "format_hook".into() });
+                return b;
+            }
+        };
+        b.evaluations += 1;
+        if let Some((pt, pc)) = prev {
+            if pc != c {
+                // bisect to the first size with a class different from pc
+                let (mut lo, mut hi) = (pt, t);
+                while hi - lo > 1 {
+                    let mid = lo + (hi - lo) / 2;
+                    b.evaluations += 1;
+                    match size_class(template, mid) {
+                        Ok(mc) => {
+                            if mc == pc {
+                                lo = mid;
+                            } else {
+                                hi = mid;
+                            }
+                        }
+                        Err((req, m)) => {
+                            b.failure = Some(Failure { message: format!("format (hook) {:?}: {}", req, m), case: serde_json::to_value(&req).unwrap(), kind: "format_hook".into() });
+                            return b;
+                        }
+                    }
+                }
+                boundaries.push(hi);
+            }
+        }
+        prev = Some((t, c));
+    }
+    for bd in &boundaries {
+        let lo = bd.saturating_sub(half).max(1);
+        let hi = (bd + half).min(u32::MAX as u64);
+        for t in lo..=hi {
+            b.evaluations += 1;
+            match size_class(template, t) {
+                Ok(_) => {}
+                Err((req, m)) => {
+                    b.failure = Some(Failure { message: format!("format (hook) {:?}: {}", req, m), case: serde_json::to_value(&req).unwrap(), kind: "format_hook".into() });
+                    return b;
+                }
+            }
+        }
+        b.nontrivial.insert(*bd ^ run::hash_str(name));
+        if b.samples.len() < 3 {
+            b.samples.push(serde_json::json!({"template": template, "class_changes_at_total_sectors": bd}));
+        }
+    }
+    *b.classes.entry("boundaries_found".into()).or_insert(0) += boundaries.len() as u64;
+    b
+}
+
 pub fn run(tier: Tier, seed: u64) -> i32 {
     let rule = "real formats: FormatVolumeOptions from strategies over every builder method (sector 512..32768, cluster 512..2^31, forced width, any root-entry count, 1-2 FATs, media, geometry, drive, id, label) x sizes (powers of two +-40, log-uniform, width thresholds, 2^32-1, device-size-derived) on sparse devices, each accepted result decoded and checked by refdec + strict mount; hook sweeps: sector counts through the guarded boot-sector hook (cross-validated against every real format) - quick: windows of +-4096 around every power of two and every observed threshold plus a 2M-point stratified sample; thorough: EVERY count 1..2^32-1 for default options and strided sweeps for 4096-byte sectors, 1 FAT and each forced width; non-trivial = request with >= 2 non-default options (real formats) / a size at which the chosen width or cluster size changes (sweeps); distinct by (options, size)";
     let mut rep = Report::new("C06", tier, seed, "exploration", rule);
@@ -556,6 +652,54 @@ pub fn run(tier: Tier, seed: u64) -> i32 {
                 rep.add(sweep("hook_stratified_sample_default_options", &def, 1 + phase, u32::MAX as u64, stride, Some(42)));
             }
         }
+    }
+    // boundary-directed windows for option templates (explicit cluster sizes, forced widths, sector sizes, FAT
+    // counts, root sizes): every size at which the outcome class changes, +-300 sectors
+    if !rep.failed() {
+        let mut templates: Vec<(String, FmtReq)> = Vec::new();
+        let base = FmtReq::default_with(0);
+        templates.push(("default".into(), base.clone()));
+        for bpc in [512u32, 1024, 2048, 4096, 8192, 32768] {
+            for fat in [None, Some(12u8), Some(16), Some(32)] {
+                let mut r = base.clone();
+                r.bpc = Some(bpc);
+                r.fat = fat;
+                templates.push((format!("bpc{}_fat{:?}", bpc, fat), r));
+            }
+        }
+        for fat in [12u8, 16, 32] {
+            let mut r = base.clone();
+            r.fat = Some(fat);
+            templates.push((format!("forced_fat{}", fat), r));
+        }
+        for (bps, bpc) in [(1024u16, None), (4096, None), (4096, Some(4096u32)), (2048, Some(8192))] {
+            let mut r = base.clone();
+            r.bps = bps;
+            r.bpc = bpc;
+            templates.push((format!("bps{}_bpc{:?}", bps, bpc), r));
+        }
+        for (fats, root) in [(1u8, 512u16), (2, 16), (1, 1), (2, 0x7FF0), (2, 100)] {
+            let mut r = base.clone();
+            r.fats = Some(fats);
+            r.root_entries = Some(root);
+            r.bpc = Some(512);
+            templates.push((format!("fats{}_root{}", fats, root), r));
+        }
+        let tl = templates.clone();
+        let blocks = std::sync::Mutex::new(Vec::new());
+        let _ = run::run_indexed("boundary_windows_dispatch", tl.len() as u64, |i, _| {
+            let (n, t) = &tl[i as usize];
+            let b = boundary_windows(&format!("boundary_windows_{}", n), t, 300);
+            blocks.lock().unwrap().push((i, b));
+            None
+        });
+        let mut bl = blocks.into_inner().unwrap();
+        bl.sort_by_key(|x| x.0);
+        let mut merged = Block::new("boundary_windows_all_templates");
+        for (_, b) in bl {
+            merged.merge(b);
+        }
+        rep.add(merged);
     }
     if !rep.failed() {
         let stride = tier.pick(40009u64, 257u64);
